@@ -303,6 +303,21 @@ prop(
     min_counters={"quick": {"faults_fired_write": 5000, "faults_fired_seek": 1000, "scripts": 11}, "thorough": {"faults_fired_write": 20000, "scripts": 11}},
 )
 
+prop(
+    "C20",
+    title="Capacity limits are enforced as errors, and symmetrically",
+    technique="boundary runtime monitor: panic supervisor + 'Err changed nothing' snapshot + 'Ok reopens identically' close-point check at L-1, L, L+1 of every capacity limit, approached in three ways",
+    rule="limits: 32 columns; 65,536 rows per table; 65,535 string-pool entries with two-byte references; 31 UTF-16 units of stored stream/table name; 32/64-character catalog "
+         "widths for table and column names; each approached (a) in one batch, (b) incrementally over several calls with reopen in between, (c) again after deletions freed "
+         "capacity; distinct = (limit, approach, step); non-trivial = the boundary step executed and all three oracles ran",
+    level_text="Directed boundary scenarios on the real library: every step that must succeed is required to succeed and to reopen identically, every step beyond a limit must "
+               "return Err, leave live and reopened state unchanged, and never panic or save a file the library then refuses.",
+    level_note="The pool limit is located dynamically (entries counted by the independent decoder). Panics are catchable here, so no worker subprocess is needed.",
+    assumptions=[TRUST_CFB, TRUST_CODEC],
+    design_ref="3/C20",
+    min_counters={"quick": {"limit_scenarios": 8, "boundary_steps_rows-65536": 15, "boundary_steps_pool-65535": 15}, "thorough": {"limit_scenarios": 8}},
+)
+
 ALL_IDS = ["C%02d" % i for i in range(1, 21)]
 
 
